@@ -123,12 +123,12 @@ class Toks:
         return self.i >= len(self.t)
 
 
-def run_driver(lines):
-    """Send all request lines to the native driver, return the answer lines (1:1)."""
+def run_driver(lines, exe="hvsrdrv"):
+    """Send all request lines to a native driver, return the answer lines (1:1)."""
     if not lines:
         return []
     data = ("\n".join(lines) + "\n").encode()
-    p = subprocess.run([DRIVER], input=data, stdout=subprocess.PIPE, stderr=subprocess.PIPE)
+    p = subprocess.run([os.path.join(LEAN, ".lake", "build", "bin", exe)], input=data, stdout=subprocess.PIPE, stderr=subprocess.PIPE)
     if p.returncode != 0:
         raise InfraError(f"driver exited with {p.returncode}: {p.stderr.decode()[:500]}")
     out = p.stdout.decode().split("\n")
